@@ -407,3 +407,19 @@ Proof.
   split; [unfold overlap; vm_compute; discriminate|unfold overlap; vm_compute; reflexivity].
 Qed.
 Print Assumptions C02_pd_nonvacuous.
+
+(* Finding "pd-static-prefix-overlaps-pool" (flag d10): an AAA Delegated-IPv6-Prefix whose length differs from the
+   pool's delegated length is "in no pool" for ReservePD (prefixToIndex compares the lengths first), so a /56 that
+   covers a /62 -> /64 pool is accepted and the pool goes on delegating /64s inside it.  C02_pd_no_overlap excludes
+   this by hypothesis (both prefixes are delegations of a pool); the Repaired model refuses such a prefix. *)
+Definition w7_ops := [IS true 1 0 None (Some (pdbase, 56)) None None; IS true 2 0 None None None None].
+Theorem C02_pd_static_overlap_refuted :
+  let st := run_first Head (init_state w5_ps w5_ss) w7_ops in
+  holds_of st 1 FD = Some (pdbase, 56) /\ holds_of st 2 FD = Some (pdbase, 64) /\ overlap (pdbase, 56) (pdbase, 64).
+Proof. vm_compute. repeat split; reflexivity. Qed.
+Print Assumptions C02_pd_static_overlap_refuted.
+Theorem C02_pd_static_overlap_repaired :
+  let st := run_first Repaired (init_state w5_ps w5_ss) w7_ops in
+  holds_of st 1 FD = None /\ holds_of st 2 FD = Some (pdbase, 64).
+Proof. vm_compute. split; reflexivity. Qed.
+Print Assumptions C02_pd_static_overlap_repaired.
